@@ -82,7 +82,7 @@ fn generic(run: &mut Run, rng: &mut Rng) {
         let g = ExprGen { cols: &infos, outer: &[], err_pct: 20, allow_like: true };
         let ty = if rng.chance(1, 2) { Ty::Bool } else { gen_ty(rng) };
         let depth = 1 + rng.below(if run.thorough() { 4 } else { 3 }) as u32;
-        let e = g.gen(rng, ty, depth);
+        let e = g.expr(rng, ty, depth);
         let mut cs = std::collections::BTreeSet::new();
         e.constructs(&mut cs);
         for c in &cs {
